@@ -162,6 +162,10 @@ func (state *State) ClearInSync() {
 
 	state.wasInSync = false
 	state.isInSync = false
+
+	// Being in sync must be confirmed by the peer again. Otherwise the next processed block would
+	// set in sync as soon as the block requests are empty, without asking the peer for more headers.
+	state.pendingSync = false
 }
 
 func (state *State) WasInSync() bool {
